@@ -110,6 +110,11 @@ def model (line : String) : String :=
         let d := Int.ofNat i * step
         lum s t (if axis = 0 then r + d else r) (if axis = 1 then g + d else g) (if axis = 2 then b + d else b))
     | _, _, _ => "bad-op"
+  | ["cmykrow", k] =>
+    match ints [k] with
+    | some [k] => if k < 0 ∨ k > 254 then "bad-op" else
+      showInts ((List.range (256 - k.toNat)).map fun d => Int.ofNat (cmykScale k.toNat d))
+    | _ => "bad-op"
   | ["sweep8", r] => match ints [r] with | some [r] => showSweep (sweep8 r) | _ => "bad-op"
   | ["sweepA", g, b] => match ints [g, b] with | some [g, b] => showSweep (sweepA g b) | _ => "bad-op"
   | _ => "bad-op"
@@ -179,6 +184,16 @@ def judge (op obs : String) : String :=
           !lumWithin s t (if axis = 0 then r + d else r) (if axis = 1 then g + d else g) (if axis = 2 then b + d else b) y
         if bad then fail "luminance-within-one-unit" else "ok"
     | _, _, _, _ => fail ("not-a-value:" ++ (obs.take 40).toString)
+  | ["cmykrow", k] =>
+    -- Spec-level fact about the implementation's row: every entry within 1.5 of the exact scaled value, never above it
+    match ints [k], ints (words obs) with
+    | some [k], some row =>
+      if row.length ≠ 256 - k.toNat then fail "shape"
+      else if ((List.range row.length).zip row).all (fun (d, t) =>
+          let y := 255 - k; let dd : Int := d
+          decide (0 ≤ t ∧ t ≤ 255 ∧ t * y ≤ dd * 255 ∧ 2 * (dd * 255 - t * y) ≤ 3 * y)) then "ok"
+      else fail "cmyk-scale-within-1.5"
+    | _, _ => fail ("not-a-value:" ++ (obs.take 40).toString)
   | ["sweep8", r] =>
     -- the judge recomputes every output of the plane in Lean, evaluates the Spec on each, and accepts the
     -- implementation's plane iff its hash equals the hash of the judged outputs (and its own count is 0)
